@@ -48,6 +48,9 @@ func ReadIntoGraph(ctx context.Context, g storage.Graph, r io.Reader, b literal.
 		cnt++
 		g.AddTriples(ctx, []*triple.Triple{t})
 	}
+	if err := scanner.Err(); err != nil {
+		return cnt, err
+	}
 	return cnt, nil
 }
 
